@@ -27,11 +27,13 @@ $(B)/$(1)/ada.o: $(REPO)/src/ada.cpp | $(B)/$(1)
 	$(CXX) $(STD) $(FLAGS_$(1)) $(DEFS) $(INC) -MMD -MP -c $$< -o $$@
 $(B)/$(1)/harness.o: engine/harness.cpp | $(B)/$(1)
 	$(CXX) $(STD) $(FLAGS_$(1)) $(DEFS) $(INC) $(WARN) -MMD -MP -c $$< -o $$@
+$(B)/$(1)/prelude.o: engine/prelude.cpp | $(B)/$(1)
+	$(CXX) $(STD) $(FLAGS_$(1)) $(DEFS) $(INC) $(WARN) -MMD -MP -c $$< -o $$@
 $(B)/$(1)/ref_%.o: ref/%.cpp | $(B)/$(1)
 	$(CXX) $(STD) $(FLAGS_$(1)) -Iref $(WARN) -MMD -MP -c $$< -o $$@
 $(B)/$(1)/%.o: props/%.cpp | $(B)/$(1)
 	$(CXX) $(STD) $(FLAGS_$(1)) $(DEFS) $(INC) $(WARN) -MMD -MP -c $$< -o $$@
-$(B)/$(1)/%: $(B)/$(1)/%.o $(B)/$(1)/harness.o $(B)/$(1)/ada.o $(patsubst ref/%.cpp,$(B)/$(1)/ref_%.o,$(REF_SRCS))
+$(B)/$(1)/%: $(B)/$(1)/%.o $(B)/$(1)/harness.o $(B)/$(1)/prelude.o $(B)/$(1)/ada.o $(patsubst ref/%.cpp,$(B)/$(1)/ref_%.o,$(REF_SRCS))
 	$(CXX) $(FLAGS_$(1)) $$^ -lrapidcheck $(RT_FUZZ) -lpthread -o $$@
 $(B)/$(1):
 	mkdir -p $$@
@@ -105,9 +107,11 @@ $(B)/vg/ada.o: $(REPO)/src/ada.cpp | $(B)/vg
 	$(CXX) $(STD) $(VG_FLAGS) $(DEFS) $(INC) -MMD -MP -c $< -o $@
 $(B)/vg/harness.o: engine/harness.cpp | $(B)/vg
 	$(CXX) $(STD) $(VG_FLAGS) $(DEFS) $(INC) $(WARN) -MMD -MP -c $< -o $@
+$(B)/vg/prelude.o: engine/prelude.cpp | $(B)/vg
+	$(CXX) $(STD) $(VG_FLAGS) $(DEFS) $(INC) $(WARN) -MMD -MP -c $< -o $@
 $(B)/vg/ref_%.o: ref/%.cpp | $(B)/vg
 	$(CXX) $(STD) $(VG_FLAGS) -Iref $(WARN) -MMD -MP -c $< -o $@
 $(B)/vg/C02.o: props/C02.cpp | $(B)/vg
 	$(CXX) $(STD) $(VG_FLAGS) $(DEFS) $(INC) $(WARN) -MMD -MP -c $< -o $@
-$(B)/vg/C02: $(B)/vg/C02.o $(B)/vg/harness.o $(B)/vg/ada.o $(patsubst ref/%.cpp,$(B)/vg/ref_%.o,$(REF_SRCS))
+$(B)/vg/C02: $(B)/vg/C02.o $(B)/vg/harness.o $(B)/vg/prelude.o $(B)/vg/ada.o $(patsubst ref/%.cpp,$(B)/vg/ref_%.o,$(REF_SRCS))
 	$(CXX) $(VG_FLAGS) $^ -lrapidcheck -lpthread -o $@
